@@ -296,6 +296,15 @@ static void die_now(void) {
     for (;;) RAW3(SYS_pause, 0, 0, 0);
 }
 
+/* A write to a pipe whose reader is gone makes the kernel send SIGPIPE to the writing thread
+ * before write(2) returns EPIPE.  Rust's runtime ignores SIGPIPE, so normally nothing happens;
+ * a program that restores the default action dies here, exactly as it would for real. */
+static void raise_sigpipe(void) {
+    long pid = RAW3(SYS_getpid, 0, 0, 0);
+    long tid = RAW3(SYS_gettid, 0, 0, 0);
+    RAW3(SYS_tgkill, pid, tid, SIGPIPE);
+}
+
 static int action_errno(int action) {
     switch (action) {
     case 1: return EIO;
@@ -368,6 +377,7 @@ static ssize_t do_write(int fd, const struct iovec *iov, int iovcnt, const void 
     int action = 0;
     if (fi->sticky_epipe) {
         trace_event('W', fd, fi->target, (long)count, -1, EPIPE, 3, off);
+        raise_sigpipe();
         errno = EPIPE;
         return -1;
     }
@@ -382,7 +392,13 @@ static ssize_t do_write(int fd, const struct iovec *iov, int iovcnt, const void 
         trace_event('W', fd, fi->target, (long)count, -1, 0, action, off);
         die_now();
     }
-    if (action == 3) fi->sticky_epipe = 1;
+    if (action == 3) {
+        fi->sticky_epipe = 1;
+        trace_event('W', fd, fi->target, (long)count, -1, EPIPE, 3, off);
+        raise_sigpipe();
+        errno = EPIPE;
+        return -1;
+    }
     if (action == 2) fi->pending_enospc = 1;
     if (action && action != 7 && action != 9) {
         int e = action_errno(action);
